@@ -434,7 +434,33 @@ def n_is_nonempty(p, n):
     return p.ctx.must(n > 0)
 
 
-UNITS = [("len_sequence", unit_len_sequence), ("bed12", unit_bed12), ("to_bed12", unit_to_bed12)]
+def unit_bounded_two_levels(U):
+    """bounded: block children related to the feature at BOTH levels (exons naming the transcript and the locus as
+    parents) still count once each in bed12"""
+    fails, cases = [], 0
+    for strand in ("+", "-"):
+        for nex in (1, 2, 3):
+            cases += 1
+            text = "c\ts\tlocus\t101\t%d\t.\t%s\t.\tID=L1\nc\ts\tmRNA\t101\t%d\t.\t%s\t.\tID=T1;Parent=L1\n" % (100 + 100 * nex, strand, 100 + 100 * nex, strand)
+            ex = []
+            for i in range(nex):
+                a, b = 101 + 100 * i, 100 + 100 * i + (100 if i == nex - 1 else 60)
+                ex.append((a, b))
+                text += "c\ts\texon\t%d\t%d\t.\t%s\t.\tID=e%d;Parent=T1,L1\n" % (a, b, strand, i)
+            try:
+                db = gffutils.create_db(text, ":memory:", from_string=True)
+                for arg in ("L1", "T1"):
+                    fields = db.bed12(arg, block_featuretype="exon", thick_featuretype=None).split("\t")
+                    exp_sizes = ",".join(str(b - a + 1) for a, b in ex)
+                    if int(fields[9]) != nex or fields[10] != exp_sizes:
+                        fails.append({"case": {"feature": arg, "exons": ex, "strand": strand}, "expected": {"blockCount": nex, "blockSizes": exp_sizes}, "observed": {"blockCount": fields[9], "blockSizes": fields[10]}})
+            except Exception as exn:
+                fails.append({"case": {"exons": ex, "strand": strand}, "expected": "a BED12 line", "observed": repr(exn)})
+    U.bounded_result("C18.bounded.two_levels", "bed12 of a feature whose block children are related to it at level 1 and level 2: one block per block feature",
+                     "1-3 exons x both strands, exons with Parent=<transcript>,<locus>; bed12 of the locus and of the transcript", cases, fails, distinct=cases)
+
+
+UNITS = [("len_sequence", unit_len_sequence), ("bed12", unit_bed12), ("to_bed12", unit_to_bed12), ("bounded.two_levels", unit_bounded_two_levels)]
 try:
     from standins import C18 as _S
     UNITS = UNITS + list(_S.UNITS)
